@@ -633,6 +633,46 @@ theorem insert_conserves_compiled_ghost_periodic {eps : K} (he : eps ≤ 0) (ax 
   obtain ⟨full', h⟩ := hsome
   exact ⟨full', h, insert_conserves_compiled_ghost he ax vol full px amount hvol a ha hin full' h⟩
 
+/-- **compiled inserter with ghost cells, 2 axes** (the cylindrical grid is the 2-axis grid with
+non-uniform volumes) -/
+theorem insert_conserves_compiled_ghost2 {eps : K} (he : eps ≤ 0) (ax ay : Axis K)
+    (vol full : Idx → K) (px py amount : K)
+    (hvol : ∀ i j, 0 ≤ i → i < ax.size → 0 ≤ j → j < ay.size → vol [i, j] ≠ 0)
+    (a b : AxisData K) (ha : axisData eps true false ax px = some a)
+    (hb : axisData eps true false ay py = some b)
+    (hina : 1 ≤ a.li ∧ a.li ≤ ax.size ∧ 1 ≤ a.hi ∧ a.hi ≤ ax.size)
+    (hinb : 1 ≤ b.li ∧ b.li ≤ ay.size ∧ 1 ≤ b.hi ∧ b.hi ≤ ay.size)
+    (full' : Idx → K) (h : insertComp2 eps true ax ay vol full px py amount = some full') :
+    integral [ax.size, ay.size] vol (validView full')
+      = integral [ax.size, ay.size] vol (validView full) + amount := by
+  unfold insertComp2 at h
+  rw [ha, hb] at h; simp only [Option.some.injEq] at h; rw [← h]
+  obtain ⟨hsa, -, -⟩ := weights_nonneg_sum_one he true false ax px a ha
+  obtain ⟨hsb, -, -⟩ := weights_nonneg_sum_one he true false ay py b hb
+  obtain ⟨al0, al1, ah0, ah1⟩ := hina
+  obtain ⟨bl0, bl1, bh0, bh1⟩ := hinb
+  have e1 : volIdx true ax.size a.li = a.li - 1 := by
+    unfold volIdx; simp only [if_true]; rw [if_neg (by omega), if_neg (by omega)]
+  have e2 : volIdx true ax.size a.hi = a.hi - 1 := by
+    unfold volIdx; simp only [if_true]; rw [if_neg (by omega), if_neg (by omega)]
+  have e3 : volIdx true ay.size b.li = b.li - 1 := by
+    unfold volIdx; simp only [if_true]; rw [if_neg (by omega), if_neg (by omega)]
+  have e4 : volIdx true ay.size b.hi = b.hi - 1 := by
+    unfold volIdx; simp only [if_true]; rw [if_neg (by omega), if_neg (by omega)]
+  rw [validView_deposit, validView_deposit, validView_deposit, validView_deposit, e1, e2, e3, e4]
+  simp only [List.map_cons, List.map_nil]
+  rw [integral_deposit _ _ _ _ _ (validIdx2 (by omega) (by omega) (by omega) (by omega)),
+    integral_deposit _ _ _ _ _ (validIdx2 (by omega) (by omega) (by omega) (by omega)),
+    integral_deposit _ _ _ _ _ (validIdx2 (by omega) (by omega) (by omega) (by omega)),
+    integral_deposit _ _ _ _ _ (validIdx2 (by omega) (by omega) (by omega) (by omega))]
+  have v1 := hvol (a.li - 1) (b.li - 1) (by omega) (by omega) (by omega) (by omega)
+  have v2 := hvol (a.li - 1) (b.hi - 1) (by omega) (by omega) (by omega) (by omega)
+  have v3 := hvol (a.hi - 1) (b.li - 1) (by omega) (by omega) (by omega) (by omega)
+  have v4 := hvol (a.hi - 1) (b.hi - 1) (by omega) (by omega) (by omega) (by omega)
+  have e : (a.wl + a.wh) * (b.wl + b.wh) * amount = amount := by rw [hsa, hsb]; ring
+  field_simp
+  linear_combination e
+
 /-- **compiled inserter, 2 axes** -/
 theorem insert_conserves_compiled2 {eps : K} (he : eps ≤ 0) (ax ay : Axis K) (hsx : 1 ≤ ax.size)
     (hsy : 1 ≤ ay.size) (vol data : Idx → K) (px py amount : K)
